@@ -114,6 +114,65 @@ def regex_literal_ok(lit_json):
     return _RX_CACHE[lit_json]
 
 
+def regex_equivalent(lit_json_a, lit_json_b):
+    """(True, "") when the two regex literals (JSON strings) behave identically under leftmost-first search --
+    decided by the rxcheck helper on the product of their DFAs, no input is matched --, else (False, why) with a
+    shortest distinguishing input"""
+    import os, subprocess
+    k = ("equiv", lit_json_a, lit_json_b)
+    if k in _RX_CACHE:
+        return _RX_CACHE[k]
+    if lit_json_a == lit_json_b:
+        _RX_CACHE[k] = (True, "identical literals")
+        return _RX_CACHE[k]
+    exe = os.path.join(os.path.dirname(os.path.dirname(os.path.abspath(__file__))), "rxcheck", "target", "release", "rxcheck")
+    if not os.path.exists(exe):
+        _RX_CACHE[k] = (False, "rxcheck helper not built (run setup.sh)")
+        return _RX_CACHE[k]
+    try:
+        out = subprocess.run([exe], input=f"equiv\t{lit_json_a}\t{lit_json_b}\n", capture_output=True, text=True,
+                             timeout=120).stdout.strip()
+    except Exception as e:  # pragma: no cover
+        out = f"err {e}"
+    if out.startswith("differ "):
+        w = bytes.fromhex(out.split()[1])
+        out = f"the two differ on input {w!r}"
+    _RX_CACHE[k] = (out == "equiv", out)
+    return _RX_CACHE[k]
+
+
+def _ascii_hit_position(base, e):
+    """`e` renders the byte position of a one-byte (ASCII) hit found in `base` itself: such a position p and
+    p + 1 are char boundaries of `base` not beyond its length"""
+    b = re.escape(base)
+    asc = r"'(?:[ -&(-\[\]-~]|\\['\\nrt0])'"        # a printable-ASCII (or simply escaped) char literal
+    pats = [
+        rf"^<std::str::MatchIndices<'a, P> as std::iter::Iterator>::next\(core::str::match_indices\({b}, {asc}\)\)@Some\.0\.0$",
+        rf"^<std::str::RMatchIndices<'a, P> as std::iter::Iterator>::next\(core::str::rmatch_indices\({b}, {asc}\)\)@Some\.0\.0$",
+        rf"^core::str::r?find\({b}, {asc}\)@Some\.0$",
+        rf"^memchr::mem(?:r)?chr\((\d+), core::str::as_bytes\({b}\)\)@Some\.0$",
+    ]
+    for i, p in enumerate(pats):
+        m = re.match(p, e)
+        if m and (i < 3 or int(m.group(1)) < 128):
+            return True
+    return False
+
+
+def _ascii_hit_slice(base, rng):
+    """`base[p..]`, `base[p + 1..]`, `base[..p]`, `base[..p + 1]` with p the position of an ASCII hit in `base`"""
+    m = re.match(r"^std::ops::(?:RangeFrom::RangeFrom\{start|RangeTo::RangeTo\{end): (.*)\}$", rng)
+    if not m:
+        return None
+    e = m.group(1)
+    m1 = re.match(r"^\((.*) AddWithOverflow 1\)\.0$", e)
+    pos = m1.group(1) if m1 else e
+    if _ascii_hit_position(base, pos):
+        return ("one-sided slice of a string at the position (or position + 1) of a one-byte ASCII character "
+                "found in that same string: a char boundary within its length")
+    return None
+
+
 def auto_discharge(s):
     """returns a reason string if the site cannot panic by construction"""
     if s.kind == "unwrap" and re.match(r'^regex::Regex::new\("', s.expr) and "{closure" in s.fn.name:
@@ -143,6 +202,9 @@ def auto_discharge(s):
             m = re.match(r"^std::ops::RangeTo::RangeTo\{end: (core::str::len|std::string::String::len)\((.*)\)\}$", rng)
             if m and m.group(2) == base:
                 return "`[..len()]` of the same string cannot panic"
+            why = _ascii_hit_slice(base, rng)
+            if why:
+                return why
         callee = s.what
         if re.search(r"HashMap<.*> as std::ops::Index", callee):
             return None
